@@ -28,8 +28,12 @@ def chrom_parent(n):
                   sequence_type=SequenceType.CHROMOSOME)
 
 
+FRAMES = {"0": CDSFrame.ZERO, "1": CDSFrame.ONE, "2": CDSFrame.TWO}
+
+
 def parse_tx_tokens(tk):
-    """returns (plen or None, strand, exon pairs, cds pairs or None)"""
+    """returns (plen or None, strand, exon pairs, cds pairs or None); `tk.frames` = cds_frames given on the line
+    (`F f1 … fc` after the CDS blocks) or None"""
     p = tk.next()
     plen = None if p == "N" else int(p)
     st = tk.strand()
@@ -41,7 +45,23 @@ def parse_tx_tokens(tk):
     else:
         c = tk.int()
         cds = [(tk.int(), tk.int()) for _ in range(c)]
+    tk.frames = None
+    if tk.i < len(tk.t) and tk.t[tk.i] == "F":
+        tk.next()
+        tk.frames = [FRAMES[tk.next()] for _ in range(len(cds or []))]
     return plen, st, exons, cds
+
+
+def cds_kwargs(cds, st, given_frames):
+    cs, ce = [s for s, _ in cds], [e for _, e in cds]
+    if given_frames is not None:
+        frames = list(given_frames)
+    else:
+        try:
+            frames = CDSInterval.construct_frames_from_location(CompoundInterval(cs, ce, st), CDSFrame.ZERO)
+        except Exception:  # noqa  (invalid CDS blocks: let the transcript constructor speak)
+            frames = [CDSFrame.ZERO] * len(cds)
+    return dict(cds_starts=cs, cds_ends=ce, cds_frames=frames)
 
 
 @functools.lru_cache(maxsize=8)
@@ -54,12 +74,7 @@ def _build_cached(key):
         parent = chrom_parent(plen) if plen is not None else None
         kw = {}
         if cds is not None:
-            cs, ce = [s for s, _ in cds], [e for _, e in cds]
-            try:
-                frames = CDSInterval.construct_frames_from_location(CompoundInterval(cs, ce, st), CDSFrame.ZERO)
-            except Exception:  # noqa  (invalid CDS blocks: let the transcript constructor speak)
-                frames = [CDSFrame.ZERO] * len(cds)
-            kw = dict(cds_starts=cs, cds_ends=ce, cds_frames=frames)
+            kw = cds_kwargs(cds, st, tk.frames)
         return TranscriptInterval([s for s, _ in exons], [e for _, e in exons], st,
                                   parent_or_seq_chunk_parent=parent, **kw), None
     except RecursionError:
@@ -78,7 +93,7 @@ def cell(f):
         return "x" if tok.startswith("err ") else "X!" + tok.split()[-1]
 
 
-KVEC_OPS = {"kc2t", "kt2c", "kc2d", "kd2c", "kd2t", "kt2d", "cr2t", "t2cr", "cr2d", "d2cr"}
+KVEC_OPS = {"kc2t", "kt2c", "kc2d", "kd2c", "kd2t", "kt2d", "kaa", "cr2t", "t2cr", "cr2d", "d2cr"}
 KLOC_OPS = {"kutr5", "kutr3", "kloc", "kcdsloc"}
 KIV_OPS = {"kci2t", "cri2t", "ti2cr", "cri2d", "di2cr"}
 CHUNK_OPS = KVEC_OPS | KLOC_OPS | KIV_OPS
@@ -96,12 +111,7 @@ def _build_chunk_cached(key, ws, we, wst_sym):
         parent = seq_chunk_to_parent(seq[ws:we], "chr1", ws, we, SYM[wst_sym])
         kw = {}
         if cds is not None:
-            cs, ce = [s for s, _ in cds], [e for _, e in cds]
-            try:
-                frames = CDSInterval.construct_frames_from_location(CompoundInterval(cs, ce, st), CDSFrame.ZERO)
-            except Exception:  # noqa
-                frames = [CDSFrame.ZERO] * len(cds)
-            kw = dict(cds_starts=cs, cds_ends=ce, cds_frames=frames)
+            kw = cds_kwargs(cds, st, tk.frames)
         return TranscriptInterval([s for s, _ in exons], [e for _, e in exons], st,
                                   parent_or_seq_chunk_parent=parent, **kw), None
     except RecursionError:
@@ -125,6 +135,7 @@ def impl_chunk_op(op, key, tk):
             fn = {"kc2t": tx.sequence_pos_to_transcript, "kt2c": tx.transcript_pos_to_sequence,
                   "kc2d": tx.sequence_pos_to_cds, "kd2c": tx.cds_pos_to_sequence,
                   "kd2t": tx.cds_pos_to_transcript, "kt2d": tx.transcript_pos_to_cds,
+                  "kaa": (lambda p: tx.cds.sequence_pos_to_amino_acid(p)),
                   "cr2t": tx.chunk_relative_pos_to_transcript, "t2cr": tx.transcript_pos_to_chunk_relative,
                   "cr2d": tx.chunk_relative_pos_to_cds, "d2cr": tx.cds_pos_to_chunk_relative}[op]
             return point(fn)
